@@ -470,6 +470,68 @@ def r02_14(run, model):
     run.floor("arms that bind the value of an ECall", n, 3)
 
 
+def r02_15(run, model):
+    run.rule("R02.15", "Go DCE's backward pass never drops a statement after it has counted that statement's uses: in every arm of "
+                       "dce_block_with_live a `continue` (statement left out) precedes the add_uses_* calls of the arm - otherwise the "
+                       "variables the dropped statement read stay live and their declarations survive unused")
+    DCE = "crates/compiler/src/go/dce.rs"
+    f = model.fn("dce_block_with_live", DCE)
+    n = 0
+    bad = []
+    for m in S.find(f.body, "Match"):
+        for arm in m["arms"]:
+            uses = [c for c in S.walk_no_closures(arm["body"]) if c["k"] == "Call" and (S.callee_name(c) or "").startswith("add_uses")]
+            conts = [c for c in S.walk_no_closures(arm["body"]) if c["k"] == "Continue"]
+            if not uses:
+                continue
+            n += 1
+            first_use = min((c["sp"][0], c["sp"][1]) for c in uses)
+            late = [c for c in conts if (c["sp"][0], c["sp"][1]) > first_use]
+            head = re.sub(r"\{.*", "", S.norm_ws(run.facts.text(DCE, arm["pat"]["sp"])))
+            run.ob("R02.15", f"dce_block_with_live|{head}: nothing is dropped after its uses were counted", not late, site(DCE, (late or [arm])[0]["sp"]),
+                   f"{len(uses)} add_uses call(s); `continue` after the first of them: {len(late)}",
+                   witness="let larger = if a > b { a } else { b }; with larger dead: both branches are emptied, the `if` is left out after a > b's "
+                           "temporary was marked live: `var t2 bool = a > b` stays, Go: declared and not used")
+    run.floor("statement arms of the backward pass that count uses", n, 6)
+
+
+def r02_16(run, model):
+    run.rule("R02.16", "the binding of `switch x := e.(type)` is kept whenever a clause uses it: the filter on the binding evaluates to true "
+                       "for every valuation in which the case blocks or the default block read the name (whatever else it consults)")
+    DCE = "crates/compiler/src/go/dce.rs"
+    f = model.fn("dce_block_with_live", DCE)
+    n = 0
+    for c in S.walk(f.body):
+        if c["k"] != "MethodCall" or c["method"] != "filter" or not S.is_path(c["recv"], "bind") or not c["args"] or c["args"][0]["k"] != "Closure":
+            continue
+        n += 1
+        body = c["args"][0]["body"]
+        while body["k"] == "Block" and len(body.get("stmts") or []) == 1:
+            st = body["stmts"][0]
+            body = st.get("expr") or st
+        atoms = S.bool_atoms(body)
+        texts = sorted({S.norm_ws(run.facts.text(DCE, a["sp"])) for a in atoms})
+        used_atoms = [t for t in texts if re.search(r"(cases|default)\w*\.contains\(", t)]
+        others = [t for t in texts if t not in used_atoms]
+        ok = bool(used_atoms)
+        counter = None
+        import itertools
+        for vals in itertools.product([False, True], repeat=len(texts)):
+            env = dict(zip(texts, vals))
+            if not any(env[t] for t in used_atoms):
+                continue
+            if not S.bool_eval(body, lambda a: env[S.norm_ws(run.facts.text(DCE, a["sp"]))]):
+                ok = False
+                counter = {k: v for k, v in env.items()}
+                break
+        run.ob("R02.16", "dce_block_with_live|type-switch binding kept when a clause reads it", ok, site(DCE, c["sp"]),
+               f"filter atoms: {texts}" + (f"; dropped although used when {counter}" if counter else ""),
+               witness="match s { Circle(r) => r, .. } followed by another use of s: the binding is dropped because s is live after the switch, "
+                       "the clause still reads s__1._0 on the interface-typed variable")
+    if n == 0:
+        raise AnalysisIncomplete("dce_block_with_live: filter on the type-switch binding not found")
+
+
 def run(run, model):
     run.try_rule(r02_1, model)
     run.try_rule(r02_2, model)
@@ -482,6 +544,8 @@ def run(run, model):
     run.try_rule(r02_11, model)
     run.try_rule(r02_12, model)
     run.try_rule(r02_14, model)
+    run.try_rule(r02_15, model)
+    run.try_rule(r02_16, model)
     from rules import c06
     run.rule("R02.13", "no type switch on a variable that an enclosing type switch rebound at a struct type (shared with C06 R06.11)")
     run.try_rule(c06.r06_11, model)
